@@ -383,8 +383,11 @@ func genDeletion(t *rapid.T, h *history, batch int) (string, []string, *ref.DelW
 			idx = new(big.Int).Add(ref.Pow2(depth), new(big.Int).SetUint64(off))
 			path = make([]*big.Int, depth)
 			if rapid.Bool().Draw(t, "pad_genuine_data") && len(occ) > 0 {
-				li := occ[0]
+				// padding slot that happens to carry a genuine membership proof for the leaf its low bits address
+				li := occ[rapid.IntRange(0, len(occ)-1).Draw(t, "pad_gi")]
+				idx = new(big.Int).Add(ref.Pow2(depth), new(big.Int).SetUint64(li))
 				item, path = work.Get(li), work.Path(li)
+				classes["padding-genuine-data"] = true
 			} else {
 				item = garbage("pad_item")
 				for j := range path {
@@ -465,5 +468,4 @@ func genDeletion(t *rapid.T, h *history, batch int) (string, []string, *ref.DelW
 }
 
 var delClassPriority = []string{"index-too-large", "wrong-value", "stale-path", "corrupted-path", "dependent-prestate-path", "duplicate-old-value",
-	"post=pre", "post-random", "post+1", "padding", "duplicate-padding", "duplicate-current", "dependent-sequential", "already-empty-or-genuine", "genuine"}
-
+	"post=pre", "post-random", "post+1", "padding-genuine-data", "padding", "duplicate-padding", "duplicate-current", "dependent-sequential", "already-empty-or-genuine", "genuine"}
